@@ -157,8 +157,10 @@ class _Instr(ast.NodeTransformer):
         self.locals = set()
 
     def visit_FunctionDef(self, node):
+        # default values are evaluated where the def statement stands, in the enclosing scope
+        node.args.defaults = [self.visit(d) for d in node.args.defaults]
         self.locals = set(n.id for n in ast.walk(node) if isinstance(n, ast.Name) and isinstance(n.ctx, ast.Store))
-        self.generic_visit(node)
+        node.body = [self.visit(st) for st in node.body]
         self.locals = set()
         return node
 
@@ -254,7 +256,9 @@ def gen_stmt(rnd, depth):
 def gen_program(rnd):
     lines = list(HEADER) + ['xs = input().split()']
     if rnd.random() < 0.4:
-        lines += ['def f():'] + indent(gen_block(rnd, 1))
+        # sometimes with a parameter whose default value reads a variable at the def statement
+        default = rnd.choice([None, None, 'a', 'b'])
+        lines += ['def f(%s):' % ('p=' + default if default else '')] + indent(gen_block(rnd, 1) + (['print(p)'] if default else []))
         body = [gen_stmt(rnd, 0) for _ in range(rnd.choice([1, 2, 3]))]
         body.insert(rnd.randrange(len(body) + 1), ['f()'])
         for st in body:
